@@ -226,6 +226,41 @@ pub fn deserializes<T, N: ArrayLength, const R: usize>() {
     if built < MAXID { assert!(drops(built) == 0); }
 }
 
+/// zero-sized drop-tracked elements: every element read is released exactly once on every outcome (a drop loop over a pointer range never
+/// runs for them)
+pub struct TrZD(pub TrZ);
+impl<'de> Deserialize<'de> for TrZD {
+    fn deserialize<D: Deserializer<'de>>(d: D) -> Result<TrZD, D::Error> {
+        struct V;
+        impl<'de> Visitor<'de> for V {
+            type Value = TrZD;
+            fn expecting(&self, _f: &mut fmt::Formatter) -> fmt::Result { Ok(()) }
+            fn visit_u8<E: de::Error>(self, _v: u8) -> Result<TrZD, E> { Ok(TrZD(TrZ::new())) }
+        }
+        d.deserialize_u8(V)
+    }
+}
+pub fn deserializes_zst<T, N: ArrayLength, const R: usize>() {
+    let n = N::USIZE;
+    let count = any_upto(n + 2);
+    let err_at = any_upto(n + 3);
+    let hint_up = if any_bool() { Some(any_upto(n + 2)) } else { None };
+    let hint_later = if any_bool() { Some(any_upto(2)) } else { None };
+    assume(!(hint_later == Some(0) && count > n));
+    assume(!(n == 0 && hint_up == Some(0) && count > 0));
+    let mut s = Script { count, err_at, hint_up, hint_later, produced: 0, hint_calls: 0, tuple_len: usize::MAX, after_none: false };
+    kani_cover!(n == 0 || (err_at + 1 == n && count == n), "last element fails to parse");
+    kani_cover!(count == n && err_at > n && hint_up.is_none(), "accepted");
+    let r: Result<GenericArray<TrZD, N>, DErr> = GenericArray::deserialize(ScriptDe(&mut s));
+    let built = if s.produced > n { n } else { s.produced };
+    match &r {
+        Ok(_) => { assert!(count == n); assert!(zlive() == n, "an accepted array does not hold N live elements"); }
+        Err(_) => { assert!(zlive() == 0, "zero-sized elements read before the rejection were not dropped"); assert!(zdrops() == built, "zero-sized elements read before the rejection were not dropped exactly once"); }
+    }
+    drop(r);
+    assert!(zlive() == 0 && zdrops() == built, "zero-sized elements not dropped exactly once");
+}
+
 /// the in-place entry point (`Deserialize::deserialize_in_place`, serde's default forwards to `deserialize`): same acceptance rule
 pub fn deserializes_in_place<T, N: ArrayLength, const R: usize>() {
     let n = N::USIZE;
@@ -268,6 +303,7 @@ pub mod q {
     c17_lattice! { serializes; n0: U0, 4; n1: U1, 5; n3: U3, 7; }
     c17_lattice! { deserializes; n0: U0, 5; n1: U1, 6; n3: U3, 8; }
     c17_lattice! { deserializes_in_place; n0: U0, 5; n1: U1, 6; n3: U3, 8; }
+    c17_lattice! { deserializes_zst; n0: U0, 5; n1: U1, 6; n3: U3, 8; }
 }
 pub mod t {
     c17_lattice! { serializes; n2: U2, 6; n4: U4, 8; n8: U8, 12; }
